@@ -30,7 +30,12 @@ def main():
         return 1
     # the oracle must reproduce the official JSON-Schema-Test-Suite before any check is trusted
     from harness import calibrate
-    return calibrate.main()
+    rc = calibrate.main()
+    if rc:
+        return rc
+    # binding self-test: real records accepted, corrupted records rejected with the right clause
+    from harness import selftest
+    return selftest.main()
 
 
 if __name__ == "__main__":
